@@ -117,6 +117,11 @@ def run(ctx):
     clause_vm_told_before_reenable(r, mir)
     clause_raw_emission_gated(r, mir)
 
+    # ------------------------------------------------------------------ R06.10 (shared with C09 R09.4)
+    # in scan mode (no observer) the scanner's consumed count decides what is re-fed with the next chunk
+    from .c09 import rule_consumed_count
+    rule_consumed_count(ctx, idx, rid="R06.10")
+
     # ------------------------------------------------------------------ R06.8 (shared with C04 R04.7)
     # match ids must not depend on how many other selectors are registered
     from .c04 import rule_absolute_indices
